@@ -7,7 +7,7 @@
 (* TraverseSpec, UnmarshalSpec, ...).  So a parallel answer equals the     *)
 (* isolated one, which in turn equals the specified one.                   *)
 (***************************************************************************)
-EXTENDS Codec, Traverse, Json, IOUtils
+EXTENDS Codec, Order, Json, IOUtils
 CONSTANTS CASEFILE, RESULT
 
 Recs == ndJsonDeserialize(CASEFILE)
@@ -41,6 +41,7 @@ Answer(n, q) ==
     [] q.op = "Unmarshal" -> UnmarshalSpec(n)
     [] q.op = "IsEqual"   -> "nil"                             \* against an independently built copy
     [] q.op = "Valid"     -> "ok"
+    [] q.op = "Less"      -> B2S(LessSpec(n, q.i, q.j))
 
 VARIABLES l, bad
 Init == l = 1 /\ bad = <<>>
